@@ -2,7 +2,7 @@
 # tools/run_all.sh [tier] : run every claimed check against /repo, one after the other; summary on stdout
 tier=${1:-quick}
 cd /verif
-for p in $(/venv/bin/python -c "import sys; sys.path.insert(0,'/verif'); from vf.registry import CLAIMED; print(' '.join(sorted(CLAIMED)))"); do
+for p in $(/venv/bin/python -c "import sys; sys.path.insert(0,'/verif'); from vf.registry import CLAIMED; print(' '.join(sorted(CLAIMED)))") $(ls vf/props | sed -n 's/^\(x[0-9][0-9]\)\.py$/\1/p' | tr a-z A-Z); do
   s=$(date +%s); ./check $p --tier $tier > /tmp/run_all_$p.log 2>&1; rc=$?; e=$(date +%s)
   echo "$p rc=$rc $((e-s))s $(grep -c '^VIOLATION' /tmp/run_all_$p.log) violations; $(tail -1 /tmp/run_all_$p.log | cut -c1-120)"
 done
